@@ -100,12 +100,420 @@ Proof.
   - rewrite G. reflexivity.
   - rewrite no_err_key by assumption. rewrite starts_with_app, skipn_app_len, E. exact G.
   - destruct (W E) as [W1 W2].
-    assert (N : dget (Some (fst (req reqs t) ++ SUFFIX, snd (req reqs t))) a = None).
-    { apply dget_none. intros k' e Hin Heq. rewrite (K _ _ Hin) in Heq. unfold key_of in Heq.
+    assert (N : forall x : str, x = fst (req reqs t) ++ SUFFIX -> dget (Some (x, snd (req reqs t))) a = None).
+    { intros x Hx. subst x. apply dget_none. intros k' e Hin Heq. rewrite (K _ _ Hin) in Heq. unfold key_of in Heq.
       destruct (r2r R2R (fst (req reqs e))) eqn:E'; try discriminate. inversion Heq; subst.
       destruct (r2r_in_value _ _ _ E') as [a' Ha]. exact (W1 _ Ha). }
-    rewrite N, W2. exact G.
+    rewrite (N _ eq_refl), W2. exact G.
   - rewrite no_err_key by assumption. rewrite starts_with_app, skipn_app_len, E. exact G.
 Qed.
 
 End Match.
+
+(* ---------------------------------------------------------------- the pending-request table under all schedules *)
+Definition removal (l l' : list (key * eid)) : Prop :=
+  (forall x, In x l' -> In x l) /\ (NoDup (map fst l) -> NoDup (map fst l')).
+
+Lemma removal_refl : forall l, removal l l.
+Proof. split; auto. Qed.
+Lemma removal_trans : forall a b c, removal a b -> removal b c -> removal a c.
+Proof. intros a b c [H1 H2] [H3 H4]. split; auto. Qed.
+
+Lemma removal_tail : forall x l, removal (x :: l) l.
+Proof. intros [k e] l. split; simpl; auto. intro H. inversion H; auto. Qed.
+
+Lemma removal_cons : forall x l l', removal l l' -> removal (x :: l) (x :: l').
+Proof.
+  intros [k e] l l' [H1 H2]. split; simpl.
+  - intros y [Hy|Hy]; auto.
+  - intro N. inversion N; subst. constructor; auto.
+    intro Hin. apply H3. apply in_map_iff in Hin. destruct Hin as [[k' e'] [Hk Hin]]. simpl in Hk; subst.
+    apply in_map_iff. exists (k, e'). split; auto.
+Qed.
+
+Lemma dpop_removal : forall k l, removal l (snd (dpop k l)).
+Proof.
+  induction l as [|[k' e] r IH]; simpl.
+  - apply removal_refl.
+  - destruct (key_eqb k k'); simpl.
+    + apply removal_tail.
+    + destruct (dpop k r) as [x r'] eqn:E. simpl in *. apply removal_cons. exact IH.
+Qed.
+
+Lemma dremove_val_removal : forall e l, removal l (dremove_val e l).
+Proof.
+  induction l as [|[k' e'] r IH]; simpl.
+  - apply removal_refl.
+  - destruct (Nat.eqb e e'); [apply removal_tail | apply removal_cons; exact IH].
+Qed.
+
+Lemma fold_remove_removal : forall es l, removal l (fold_left (fun a e => dremove_val e a) es l).
+Proof.
+  induction es as [|e es IH]; simpl; intro l; [apply removal_refl|].
+  eapply removal_trans; [apply dremove_val_removal | apply IH].
+Qed.
+
+Lemma popitem_none : forall l, popitem l = None -> l = [].
+Proof. destruct l as [|[k x] r]; simpl; auto. destruct (popitem r) as [[y r']|]; discriminate. Qed.
+
+Lemma popitem_removal : forall l e l', popitem l = Some (e, l') -> removal l l'.
+Proof.
+  induction l as [|[k x] r IH]; simpl; intros e l' H; try discriminate.
+  destruct (popitem r) as [[y r']|] eqn:E.
+  - inversion H; subst. apply removal_cons. eapply IH; reflexivity.
+  - inversion H; subst. apply popitem_none in E. subst r. apply removal_tail.
+Qed.
+
+Lemma dmem_false_notin : forall k l, dmem k l = false -> ~ In k (map fst l).
+Proof.
+  induction l as [|[k' e] r IH]; simpl; intros H; auto.
+  destruct (key_eqb k k') eqn:E; try discriminate.
+  intros [Hk|Hk]; [subst; rewrite key_eqb_refl in E; discriminate | exact (IH H Hk)].
+Qed.
+
+Lemma NoDup_app_one : forall {A} (l : list A) x, NoDup l -> ~ In x l -> NoDup (l ++ [x]).
+Proof.
+  induction l as [|y l IH]; simpl; intros x N H.
+  - constructor; auto.
+  - inversion N; subst. constructor.
+    + intro Hin. apply in_app_or in Hin. destruct Hin as [Hin|[Hin|[]]]; auto.
+    + apply IH; auto.
+Qed.
+
+Section Table.
+Variable R2R : list (str * str).
+Variable ERR : str.
+Variable reqs : list (str * str).
+
+(* how one step may change the table: entries are only removed, or one entry is registered under the key of its
+   own request, and only if that key is not registered *)
+Definition table_step (l l' : list (key * eid)) : Prop :=
+  removal l l' \/ exists e, l' = l ++ [(key_of R2R (req reqs e), e)] /\ dmem (key_of R2R (req reqs e)) l = false.
+
+Lemma rx_match_removal : forall a m, removal a (snd (rx_match R2R ERR a m)).
+Proof.
+  intros. unfold rx_match. pose proof (dpop_removal (Some (m_action m, m_ident m)) a) as P.
+  destruct (dpop (Some (m_action m, m_ident m)) a) as [[e|] a']; simpl in *; auto.
+  apply dpop_removal.
+Qed.
+
+Lemma rel_loop_removal : forall s, removal (active s) (active (fst (rel_loop_in s))).
+Proof.
+  intro s. unfold rel_loop_in. destruct (popitem (active s)) as [[e a']|] eqn:E; simpl.
+  - eapply popitem_removal; eauto.
+  - apply removal_refl.
+Qed.
+
+Ltac brk := repeat match goal with
+  | |- context[match ?x with _ => _ end] => destruct x eqn:?; simpl
+  | |- context[if ?x then _ else _] => destruct x eqn:?; simpl
+  end.
+
+Lemma dstep_removal : forall s d, removal (active s) (active (fst (dstep s d))).
+Proof.
+  intros s d. destruct d; simpl; try apply removal_refl;
+    unfold post_drain, after_tx, rel_begin; brk;
+    try apply removal_refl;
+    try (match goal with |- removal _ (active (fst (rel_loop_in ?s))) =>
+           eapply removal_trans; [|apply (rel_loop_removal s)]; simpl; apply removal_refl end).
+Qed.
+
+Lemma rx_loop_top_removal : forall s, removal (active s) (active (rx_loop_top s)).
+Proof.
+  intro s. unfold rx_loop_top, do_cleanup, rx_finally. brk; try apply removal_refl; apply fold_remove_removal.
+Qed.
+
+Lemma tx_loop_top_active : forall s, active (tx_loop_top s) = active s.
+Proof. intro s. unfold tx_loop_top, tx_exit. destruct (running s); reflexivity. Qed.
+
+Lemma cstep_table : forall s x, table_step (active s) (active (cstep R2R ERR reqs s x)).
+Proof.
+  intros s [t a]. unfold cstep; simpl. destruct t.
+  - (* caller *) left. unfold caller_step, finish. brk; apply removal_refl.
+  - (* tx *) unfold tx_step. destruct (tx s) eqn:Etx; simpl.
+    + left. rewrite tx_loop_top_active. apply removal_refl.
+    + destruct (txq s) as [|[e|] r] eqn:Eq; simpl.
+      * left. apply removal_refl.
+      * destruct (dmem (key_of R2R (req reqs e)) (active s)) eqn:Em; simpl.
+        -- left. apply removal_refl.
+        -- right. exists e. destruct (io_set s); simpl; auto.
+      * left. unfold tx_exit. simpl. apply removal_refl.
+    + left. rewrite tx_loop_top_active. apply removal_refl.
+    + left. destruct (closed_local s); simpl; [apply removal_refl|].
+      rewrite tx_loop_top_active. destruct (caller_done s e); apply removal_refl.
+    + left. destruct (d_enabled s d); [|apply removal_refl].
+      pose proof (dstep_removal s d) as P. destruct (dstep s d) as [s1 d1]. simpl in *. exact P.
+    + left. apply removal_refl.
+  - (* rx *) left. unfold rx_step. destruct (rx s) eqn:Erx; simpl.
+    + apply rx_loop_top_removal.
+    + destruct (closed_local s); [apply removal_refl|].
+      destruct a as [| |[| | |t ok]]; try apply rx_loop_top_removal; try apply removal_refl.
+      destruct (memb t (out s)); [|apply rx_loop_top_removal].
+      pose proof (rx_match_removal (active s) (answer R2R ERR (req reqs t) ok t)) as P. simpl.
+      destruct (rx_match R2R ERR (active s) (answer R2R ERR (req reqs t) ok t)) as [[e|] a'] eqn:Em; simpl in *.
+      * exact P.
+      * eapply removal_trans; [|apply rx_loop_top_removal]. simpl. apply removal_refl.
+    + apply removal_refl.
+    + destruct (pending s); [apply rx_loop_top_removal | apply removal_refl].
+    + destruct (pending s); apply removal_refl.
+    + apply removal_refl.
+    + destruct (d_enabled s d); [|apply removal_refl].
+      pose proof (dstep_removal s d) as P. destruct (dstep s d) as [s1 d1]. simpl in *. exact P.
+  - (* user *) left. unfold user_step. destruct (us s); simpl; [apply removal_refl|].
+    destruct (d_enabled s d); [|apply removal_refl].
+    pose proof (dstep_removal s d) as P. destruct (dstep s d) as [s1 d1]. simpl in *. exact P.
+Qed.
+
+Definition table_inv (l : list (key * eid)) : Prop :=
+  keys_ok R2R reqs l /\ NoDup (map fst l).
+
+Lemma table_step_inv : forall l l', table_step l l' -> table_inv l -> table_inv l'.
+Proof.
+  intros l l' [[H1 H2]|[e [He Hm]]] [K N].
+  - split; auto. intros k e Hin. apply K. apply H1. exact Hin.
+  - subst l'. split.
+    + intros k x Hin. apply in_app_or in Hin. destruct Hin as [Hin|[Hin|[]]]; [apply K; exact Hin|].
+      inversion Hin; subst. reflexivity.
+    + rewrite map_app. simpl. apply NoDup_app_one; auto. apply dmem_false_notin. exact Hm.
+Qed.
+
+Theorem table_inv_run : forall sched, table_inv (active (run R2R ERR reqs sched)).
+Proof.
+  intro sched. unfold run.
+  assert (G : forall s, table_inv (active s) -> table_inv (active (fold_left (cstep R2R ERR reqs) sched s))).
+  { induction sched as [|x r IH]; simpl; intros s H; auto.
+    apply IH. eapply table_step_inv; [apply cstep_table | exact H]. }
+  apply G. simpl. split; [intros k e []|constructor].
+Qed.
+
+End Table.
+
+(* ---------------------------------------------------------------- linearity of entries under all schedules *)
+Fixpoint cnt (x : nat) (l : list nat) : nat :=
+  match l with [] => 0 | y :: r => (if Nat.eqb x y then 1 else 0) + cnt x r end.
+Fixpoint cnto (x : nat) (l : list (option nat)) : nat :=
+  match l with
+  | [] => 0
+  | Some y :: r => (if Nat.eqb x y then 1 else 0) + cnto x r
+  | None :: r => cnto x r
+  end.
+Fixpoint cputs (k : nat) (l : list cpc) : list nat :=
+  match l with
+  | [] => []
+  | CPut :: r => k :: cputs (S k) r
+  | _ :: r => cputs (S k) r
+  end.
+Definition hand_t (t : tpc) : list nat := match t with TPark e => [e] | _ => [] end.
+Definition hand_r (r : rpc) : list nat := match r with RReq e => [e] | _ => [] end.
+Definition vals (l : list (key * eid)) : list nat := map snd l.
+
+(* where an entry can be: not yet queued, in txq, in pending, registered, in the hand of tx (about to be parked),
+   in the hand of rx (being re-queued), answered *)
+Definition Q (s : state) (x : nat) : nat :=
+  cnto x (txq s) + cnt x (pending s) + cnt x (vals (active s)).
+Definition P (s : state) (x : nat) : nat :=
+  cnt x (cputs 0 (cs s)) + Q s x + cnt x (hand_t (tx s)) + cnt x (hand_r (rx s)) + cnt x (map fst (replies s)).
+
+Lemma cnt_app : forall x a b, cnt x (a ++ b) = cnt x a + cnt x b.
+Proof. induction a; simpl; intros; auto. rewrite IHa. lia. Qed.
+Lemma cnto_app : forall x a b, cnto x (a ++ b) = cnto x a + cnto x b.
+Proof. induction a as [|[y|] a IH]; simpl; intros; auto. rewrite IH. lia. Qed.
+Lemma vals_app : forall a b, vals (a ++ b) = vals a ++ vals b.
+Proof. intros. unfold vals. apply map_app. Qed.
+
+Lemma dpop_cnt : forall x k l,
+  cnt x (vals l) = cnt x (vals (snd (dpop k l))) + match fst (dpop k l) with Some e => cnt x [e] | None => 0 end.
+Proof.
+  induction l as [|[k' e] r IH]; simpl; auto.
+  destruct (key_eqb k k'); simpl; [lia|].
+  destruct (dpop k r) as [y r']; simpl in *. lia.
+Qed.
+
+Lemma dremove_val_cnt : forall x e l, cnt x (vals (dremove_val e l)) <= cnt x (vals l).
+Proof.
+  induction l as [|[k' e'] r IH]; simpl; auto. destruct (Nat.eqb e e'); simpl; lia.
+Qed.
+Lemma fold_remove_cnt : forall x es l, cnt x (vals (fold_left (fun a e => dremove_val e a) es l)) <= cnt x (vals l).
+Proof.
+  induction es as [|e es IH]; simpl; intro l; auto.
+  eapply Nat.le_trans; [apply IH | apply dremove_val_cnt].
+Qed.
+Lemma popitem_cnt : forall x l e l', popitem l = Some (e, l') -> cnt x (vals l') <= cnt x (vals l).
+Proof.
+  induction l as [|[k y] r IH]; simpl; intros e l' H; try discriminate.
+  destruct (popitem r) as [[z r']|] eqn:E; inversion H; subst; simpl.
+  - specialize (IH _ _ eq_refl). lia.
+  - lia.
+Qed.
+
+Lemma cputs_set_put : forall x c' l i k, nth_error l i = Some CPut -> c' <> CPut ->
+  cnt x (cputs k (set_nth i c' l)) + (if Nat.eqb x (k + i) then 1 else 0) = cnt x (cputs k l).
+Proof.
+  induction l as [|c l IH]; intros i k H Hc; destruct i; simpl in *; try discriminate.
+  - inversion H; subst. destruct c'; try congruence; simpl; rewrite Nat.add_0_r; lia.
+  - specialize (IH i (S k) H Hc). replace (k + S i) with (S k + i) by lia.
+    destruct c; simpl in *; lia.
+Qed.
+Lemma cputs_set_other : forall c c' l i k, nth_error l i = Some c -> c <> CPut -> c' <> CPut ->
+  cputs k (set_nth i c' l) = cputs k l.
+Proof.
+  induction l as [|d l IH]; intros i k H Hc Hc'; destruct i; simpl in *; try discriminate.
+  - inversion H; subst. destruct c; destruct c'; try congruence; reflexivity.
+  - rewrite (IH i (S k) H Hc Hc'). reflexivity.
+Qed.
+
+Section Linear.
+Variable R2R : list (str * str).
+Variable ERR : str.
+Variable reqs : list (str * str).
+
+Ltac brk := repeat match goal with
+  | |- context[match ?x with _ => _ end] => destruct x eqn:?; simpl
+  | |- context[if ?x then _ else _] => destruct x eqn:?; simpl
+  end.
+
+Lemma rx_match_cnt : forall x a m,
+  cnt x (vals a) = cnt x (vals (snd (rx_match R2R ERR a m))) +
+                   match fst (rx_match R2R ERR a m) with Some e => cnt x [e] | None => 0 end.
+Proof.
+  intros. unfold rx_match. pose proof (dpop_cnt x (Some (m_action m, m_ident m)) a) as D1.
+  destruct (dpop (Some (m_action m, m_ident m)) a) as [[e|] a'] eqn:E1; simpl in *; auto.
+  apply dpop_cnt.
+Qed.
+
+Lemma rel_loop_Q : forall s x, Q (fst (rel_loop_in s)) x <= Q s x.
+Proof.
+  intros. unfold rel_loop_in, Q. destruct (popitem (active s)) as [[e a']|] eqn:E; simpl; auto.
+  pose proof (popitem_cnt x _ _ _ E). lia.
+Qed.
+
+(* disconnect() only drops entries; it changes neither the callers nor the answered entries nor the thread states *)
+Lemma dstep_Q : forall s d x, Q (fst (dstep s d)) x <= Q s x.
+Proof.
+  intros s d x. destruct d; simpl; auto;
+    unfold post_drain, after_tx, rel_begin; brk; auto;
+    try (match goal with |- Q (fst (rel_loop_in ?s1)) _ <= _ =>
+           eapply Nat.le_trans; [apply (rel_loop_Q s1)|]; unfold Q; simpl; auto end);
+    unfold Q; simpl; try rewrite cnto_app; simpl; try lia;
+    repeat match goal with H : txq s = _ |- _ => rewrite H; simpl | H : pending s = _ |- _ => rewrite H; simpl end;
+    try lia; destruct o; simpl; lia.
+Qed.
+Lemma dstep_frame : forall s d, let s1 := fst (dstep s d) in
+  cs s1 = cs s /\ replies s1 = replies s /\ tx s1 = tx s /\ rx s1 = rx s.
+Proof.
+  intros s d. destruct d; simpl; auto; unfold post_drain, after_tx, rel_begin, rel_loop_in; brk; auto.
+Qed.
+
+Lemma tx_loop_top_P : forall s x, P (tx_loop_top s) x + cnt x (hand_t (tx s)) = P s x.
+Proof. intros. unfold tx_loop_top, tx_exit, P, Q. destruct (running s); simpl; lia. Qed.
+
+Lemma rx_loop_top_P : forall s x, P (rx_loop_top s) x + cnt x (hand_r (rx s)) <= P s x.
+Proof.
+  intros. unfold rx_loop_top, do_cleanup, rx_finally, P, Q. brk; try lia.
+  - pose proof (fold_remove_cnt x (rev (cleanup s)) (active s)). lia.
+  - pose proof (fold_remove_cnt x (rev (cleanup s)) (active s)). lia.
+Qed.
+
+Lemma disc_P : forall s d x (f : state -> dpc -> state),
+  (forall s1 d1, P (f s1 d1) x + cnt x (hand_t (tx s1)) + cnt x (hand_r (rx s1))
+                 = P s1 x + cnt x (hand_t (tx (f s1 d1))) + cnt x (hand_r (rx (f s1 d1)))) ->
+  hand_t (tx (f (fst (dstep s d)) (snd (dstep s d)))) = hand_t (tx s) ->
+  hand_r (rx (f (fst (dstep s d)) (snd (dstep s d)))) = hand_r (rx s) ->
+  P (let '(s1, d1) := dstep s d in f s1 d1) x <= P s x.
+Proof.
+  intros s d x f Hf Ht Hr. pose proof (dstep_Q s d x) as HQ. pose proof (dstep_frame s d) as [F1 [F2 [F3 F4]]].
+  destruct (dstep s d) as [s1 d1]. simpl in *. specialize (Hf s1 d1).
+  rewrite Ht, Hr, F3, F4 in Hf. unfold P in *. rewrite F1, F2, F3, F4 in *. lia.
+Qed.
+
+Theorem cstep_P : forall s a x, P (cstep R2R ERR reqs s a) x <= P s x.
+Proof.
+  intros s [t a] x. unfold cstep; simpl. destruct t.
+  - (* caller *)
+    unfold caller_step, finish. destruct (nth_error (cs s) i) as [[| |o]|] eqn:En; auto.
+    + unfold P, Q; simpl. rewrite cnto_app; simpl.
+      pose proof (cputs_set_put x CWait (cs s) i 0 En ltac:(discriminate)). simpl in H. lia.
+    + assert (C : forall o, cputs 0 (set_nth i (CDone o) (cs s)) = cputs 0 (cs s)).
+      { intro o. eapply cputs_set_other; eauto; discriminate. }
+      brk; unfold P, Q; simpl; rewrite ?C; lia.
+  - (* tx *)
+    unfold tx_step. destruct (tx s) eqn:Etx; auto.
+    + pose proof (tx_loop_top_P s x). rewrite Etx in H. simpl in H. lia.
+    + destruct (txq s) as [|[e|] r] eqn:Eq; auto.
+      * simpl. destruct (dmem (key_of R2R (req reqs e)) (active s)); [|simpl; destruct (io_set s)];
+          unfold P, Q; simpl; rewrite ?Eq, ?Etx; simpl; rewrite ?vals_app, ?cnt_app; simpl; lia.
+      * unfold tx_exit, P, Q; simpl. rewrite Eq, Etx. simpl. lia.
+    + pose proof (tx_loop_top_P (set_pending s (pending s ++ [e])) x) as H. simpl in H. rewrite Etx in H.
+      unfold P, Q in *. simpl in *. rewrite cnt_app in H. rewrite ?Etx in H. simpl in H. rewrite ?Etx. simpl. lia.
+    + destruct (closed_local s).
+      * unfold P, Q; simpl. rewrite Etx. simpl. lia.
+      * destruct (caller_done s e).
+        -- pose proof (tx_loop_top_P s x). rewrite Etx in H. simpl in H. lia.
+        -- pose proof (tx_loop_top_P (set_out s (out s ++ [e])) x) as H. simpl in H. rewrite Etx in H.
+           unfold P, Q in *. simpl in *. rewrite ?Etx in H. simpl in H. rewrite ?Etx. simpl. lia.
+    + destruct (d_enabled s d); auto.
+      apply (disc_P s d x (fun s1 d1 => set_tx s1 (TDisc d1))).
+      * intros. unfold P, Q. simpl. lia.
+      * simpl. rewrite Etx. reflexivity.
+      * simpl. destruct (dstep_frame s d) as [_ [_ [_ F]]]. rewrite F. reflexivity.
+  - (* rx *)
+    unfold rx_step. destruct (rx s) eqn:Erx; auto.
+    + pose proof (rx_loop_top_P s x). lia.
+    + assert (L : P (rx_loop_top s) x <= P s x) by (pose proof (rx_loop_top_P s x); lia).
+      assert (F : forall sd, P (rx_finally s sd) x <= P s x).
+      { intro sd. unfold rx_finally, P, Q; simpl. rewrite Erx. simpl. lia. }
+      destruct (closed_local s); auto.
+      destruct a as [| |[| | |t ok]]; auto.
+      destruct (memb t (out s)); auto.
+      change (active (set_out s (remove_id t (out s)))) with (active s).
+      pose proof (rx_match_cnt x (active s) (answer R2R ERR (req reqs t) ok t)) as D.
+      destruct (rx_match R2R ERR (active s) (answer R2R ERR (req reqs t) ok t)) as [[e|] a'] eqn:Em; simpl in D.
+      * unfold P, Q; simpl. rewrite Erx. simpl. lia.
+      * pose proof (rx_loop_top_P (set_out s (remove_id t (out s))) x) as H. simpl in H.
+        unfold P, Q in *. simpl in *. lia.
+    + unfold P, Q; simpl. rewrite Erx. simpl. lia.
+    + destruct (pending s) eqn:Ep.
+      * pose proof (rx_loop_top_P s x). lia.
+      * unfold P, Q; simpl. rewrite Erx. simpl. lia.
+    + destruct (pending s) eqn:Ep; auto. unfold P, Q; simpl. rewrite Erx, Ep. simpl. lia.
+    + unfold P, Q; simpl. rewrite Erx, cnto_app. simpl. lia.
+    + destruct (d_enabled s d); auto.
+      apply (disc_P s d x (fun s1 d1 => set_rx s1 (RDisc d1))).
+      * intros. unfold P, Q. simpl. lia.
+      * simpl. destruct (dstep_frame s d) as [_ [_ [F _]]]. rewrite F. reflexivity.
+      * simpl. rewrite Erx. reflexivity.
+  - (* user *)
+    unfold user_step. destruct (us s) eqn:Eu.
+    + unfold P, Q; simpl. lia.
+    + destruct (d_enabled s d); auto.
+      apply (disc_P s d x (fun s1 d1 => set_us s1 (UDisc d1))).
+      * intros. unfold P, Q. simpl. lia.
+      * simpl. destruct (dstep_frame s d) as [_ [_ [F _]]]. rewrite F. reflexivity.
+      * simpl. destruct (dstep_frame s d) as [_ [_ [_ F]]]. rewrite F. reflexivity.
+Qed.
+
+Lemma cputs_lt : forall x l k, x < k -> cnt x (cputs k l) = 0.
+Proof.
+  induction l as [|c l IH]; intros k H; simpl; auto.
+  destruct c; simpl; try (apply IH; lia).
+  replace (Nat.eqb x k) with false by (symmetry; apply Nat.eqb_neq; lia). simpl. apply IH. lia.
+Qed.
+Lemma cputs_le1 : forall x l k, cnt x (cputs k l) <= 1.
+Proof.
+  induction l as [|c l IH]; intros k; simpl; auto.
+  destruct c; simpl; auto.
+  destruct (Nat.eqb x k) eqn:E; [|simpl; apply IH].
+  apply Nat.eqb_eq in E. subst. rewrite cputs_lt by lia. lia.
+Qed.
+
+Theorem linear_run : forall sched x, P (run R2R ERR reqs sched) x <= 1.
+Proof.
+  intros sched x. unfold run.
+  assert (G : forall s, P (fold_left (cstep R2R ERR reqs) sched s) x <= P s x).
+  { induction sched as [|a r IH]; simpl; intro s; auto.
+    eapply Nat.le_trans; [apply IH | apply cstep_P]. }
+  eapply Nat.le_trans; [apply G|]. unfold P, Q, init; simpl.
+  pose proof (cputs_le1 x (map (fun _ : str * str => CPut) reqs) 0). lia.
+Qed.
+
+End Linear.
